@@ -8,7 +8,8 @@
     is established by the cell-by-cell comparison of the check, not here. *)
 From RP2V Require Import Base.Prelude Base.Time Base.Dec Base.Assoc Model.Types Model.Generated Model.Txn Model.Matcher
   Model.Pipeline Model.Computed Model.Grid Model.ReportInput Model.FullReport
-  Proofs.FullReportLayout Proofs.FullReportProofs Proofs.FullReportCompute Proofs.FullReportWitness.
+  Proofs.FullReportLayout Proofs.FullReportProofs Proofs.FullReportCompute Proofs.FullReportCapacity Proofs.FullReportLabels
+  Proofs.FullReportWitness Proofs.FullReportWitnessCap.
 Open Scope Z_scope.
 
 (** the column layouts the statements below range over are the documented ones *)
@@ -57,12 +58,12 @@ Theorem C13_intra_transaction_row : forall env inp x j t col lk f,
   = [cw (il_intra (inout_rows_of (ac_c x)) + Z.of_nat j) col (intra_field env inp x j t lk f)].
 Proof. exact inout_intra_at. Qed.
 
-(** the three tables start 3 rows (title + 2 header rows) below each other's end plus a 2-row gap: first data rows
-    3, 3 + ins + 5, ... ; rows of different transactions are different rows *)
+(** every table starts 3 rows (title + 2 header rows) below the end of the previous one or lower: the row ranges of
+    the three tables are disjoint, so rows of different transactions are different rows *)
 Theorem C13_in_out_rows : forall c,
-  il_in (inout_rows_of c) = 3 /\
-  il_out (inout_rows_of c) = il_in (inout_rows_of c) + Z.of_nat (length (cd_ins c)) + 5 /\
-  il_intra (inout_rows_of c) = il_out (inout_rows_of c) + Z.of_nat (length (cd_outs c)) + 5.
+  3 <= il_in (inout_rows_of c) /\
+  il_in (inout_rows_of c) + Z.of_nat (length (cd_ins c)) + 3 <= il_out (inout_rows_of c) /\
+  il_out (inout_rows_of c) + Z.of_nat (length (cd_outs c)) + 3 <= il_intra (inout_rows_of c).
 Proof. exact inout_rows_values. Qed.
 
 (** running sums and sold percentage shown are ComputedData's (dictionary lookups by transaction id) *)
@@ -141,17 +142,36 @@ Theorem C13_in_out_sheet_capacity : forall env inp x period from_day to_day allo
   compute period from_day to_day allow exs hos (ac_txs x) fs = Ok (ac_c x) ->
   sheet_ok (inout_sheet env inp x) = true.
 Proof. exact inout_capacity. Qed.
-(** ... nor the Tax sheet, as long as at most 21 distinct holders have a balance: the sheet has MIN_ROWS(40) + yearly +
-    balances + fractions rows, 19 fixed rows + one total row per holder are written besides those (finding F12) *)
+(** ... nor the Tax sheet, as long as at most [max_holders] = MIN_ROWS - 19 = 21 distinct holders have a balance: the
+    sheet has MIN_ROWS(40) + yearly + balances + fractions rows, 19 fixed rows + one total row per holder are written
+    besides those (finding F12); one holder more and the model -- like the implementation -- ends in IndexError *)
 Theorem C13_tax_sheet_capacity : forall env inp x lm period from_day to_day allow exs hos fs,
   compute period from_day to_day allow exs hos (ac_txs x) fs = Ok (ac_c x) ->
-  Z.of_nat (length (holder_totals inp (cd_balances (ac_c x)))) <= 21 ->
+  Z.of_nat (length (holder_totals inp (cd_balances (ac_c x)))) <= max_holders ->
   sheet_ok (tax_sheet env inp x lm) = true.
 Proof. exact tax_capacity. Qed.
-Theorem C13_tax_sheet_overflow_refuted : exists env inp, full_report code_flags env inp = RIndexError.
-Proof. exists wenv, (w_holders 22). apply f12_overflow. Qed.
-Theorem C13_tax_sheet_21_holders_fit : exists l, full_report fixed_flags wenv (w_holders 21) = ROk l /\ length l = 4%nat.
+Theorem C13_max_holders : tax_fixed = 19 /\ max_holders = gen_full_min_rows - 19.
+Proof. exact max_holders_val. Qed.
+Theorem C13_tax_sheet_overflow_refuted : forall fl, full_report fl wenv (w_holders (S (Z.to_nat max_holders))) = RIndexError.
+Proof. exact f12_overflow. Qed.
+Theorem C13_tax_sheet_max_holders_fit : exists l, full_report fixed_flags wenv (w_holders (Z.to_nat max_holders)) = ROk l /\ length l = 4%nat.
 Proof. exact f12_fits. Qed.
+
+(** the labels: (k - 1, n) printed on the row of a fraction are the (index, count) that GainLossSet's numbering
+    assigns to it among all fractions dated up to the to-date (not among the fractions shown) *)
+Theorem C13_labels_are_numbering : forall period from_day to_day allow exs hos t fs c,
+  compute period from_day to_day allow exs hos t fs = Ok c ->
+  exists evf lotf evt lott,
+    numbering to_day (cd_all_gls c) = Ok (evf, lotf, evt, lott) /\
+    forall j d, nth_error (drows c) j = Some d ->
+      exists p, nth_error (take_until g_day to_day (cd_all_gls c)) p = Some (fst d) /\
+                nth_error evf p = Some (fst (fst (snd d))) /\
+                snd (fst (snd d)) = aget_d O (t_row (g_ev (fst d))) evt /\
+                snd (snd d) = match g_lot (fst d), nth_error lotf p with
+                              | Some l, Some (Some i) => Some (i, aget_d O (i_row l) lott)
+                              | _, _ => None
+                              end.
+Proof. exact labels_are_numbering. Qed.
 
 (** Legend: the method string is the single method (whatever year it is registered under) or the list "y:M" /
     "y0->y:M"; it is written next to "Accounting Method", the from / to dates (or "non-specified") below it.
@@ -188,7 +208,9 @@ Print Assumptions C13_report_shape.
 Print Assumptions C13_in_out_sheet_capacity.
 Print Assumptions C13_tax_sheet_capacity.
 Print Assumptions C13_tax_sheet_overflow_refuted.
-Print Assumptions C13_tax_sheet_21_holders_fit.
+Print Assumptions C13_tax_sheet_max_holders_fit.
+Print Assumptions C13_max_holders.
+Print Assumptions C13_labels_are_numbering.
 Print Assumptions C13_legend_methods.
 Print Assumptions C13_legend_refuted_keyed_by_1970.
 Print Assumptions C13_legend_cells.
